@@ -32,26 +32,6 @@ def classes_env():
     for c in ("RuleCrossRef", "ClassCrossRef"): d[c] = (lambda v, c=c: isinstance(v, dict) and v.get(".kind") == c)
     d["str"] = lambda v: isinstance(v, str); d["list"] = lambda v: isinstance(v, list)
     return d
-def ctor_env(made=None):
-    """stand-ins for the expression constructors: each call builds a sample expression of that kind"""
-    def mk(kind):
-        def ctor(*a, nodes=None, rule_name="", root=False, **kw):
-            e = {".kind": kind, ".nodes": list(nodes) if nodes is not None else (list(a[0]) if a and isinstance(a[0], (list, tuple)) else list(a)), ".rule_name": rule_name, ".root": root, ".suppress": False, ".made_by_code": True}
-            for k_, v_ in kw.items(): e["." + k_] = v_
-            if made is not None: made.append(e)
-            return e
-        return pyeval.PyFn(ctor)
-    def mkmatch(kind):
-        def ctor(to_match, rule_name="", root=False, ignore_case=None, **kw):
-            e = {".kind": kind, ".nodes": [], ".rule_name": rule_name, ".root": root, ".suppress": False, ".made_by_code": True, ".to_match": to_match, ".ignore_case": ignore_case, ".__class__": type_of(kind)}
-            if kind == "RegExMatch": e.update({".to_match_regex": to_match, ".str_repr": kw.pop("str_repr", None), ".compiled": 0}); e[".compile"] = pyeval.PyFn(lambda e=e: e.__setitem__(".compiled", e[".compiled"] + 1))
-            for k_, v_ in kw.items(): e["." + k_] = v_
-            if made is not None: made.append(e)
-            return e
-        return pyeval.PyFn(ctor)
-    d = {k: mk(k) for k in ("Sequence", "OrderedChoice", "OneOrMore", "ZeroOrMore", "Optional", "UnorderedGroup", "Not", "And")}
-    d.update({k: mkmatch(k) for k in ("StrMatch", "RegExMatch")})
-    return d
 class HS(dict):
     """sample object compared and hashed by identity (usable in sets and as dict key, like the objects it stands for)"""
     __hash__ = object.__hash__
@@ -61,6 +41,18 @@ class HS(dict):
         # the trusted standard-library functions (operator.attrgetter, getattr) read a sample's fields like attributes
         try: return s["." + name]
         except KeyError: raise AttributeError(name)
+def ctor_env(made=None):
+    """stand-ins for the expression constructors: each call builds a sample expression of that kind"""
+    def mk(kind):
+        def ctor(*a, nodes=None, rule_name="", root=False, **kw):
+            e = HS({".kind": kind, ".nodes": list(nodes) if nodes is not None else (list(a[0]) if a and isinstance(a[0], (list, tuple)) else list(a)), ".rule_name": rule_name, ".root": root, ".suppress": False, ".made_by_code": True})
+            for k_, v_ in kw.items(): e["." + k_] = v_
+            if made is not None: made.append(e)
+            return e
+        return pyeval.PyFn(ctor)
+    d = {k: mk(k) for k in ("Sequence", "OrderedChoice", "OneOrMore", "ZeroOrMore", "Optional", "UnorderedGroup", "Not", "And")}
+    d.update({k: type_of(k) for k in ("StrMatch", "RegExMatch")})        # the match classes: one object is the class (type(x) is StrMatch) and its constructor
+    return d
 class MM(dict):
     """sample meta-model: subscript / `in` by rule name, iteration over the classes (as TextXMetaModel does)"""
     def __iter__(s): return iter(list(dict.values(s)))
